@@ -189,20 +189,32 @@ func scenario(cfg ringCfg, flavours []wx.Flavour, writes int, bounds []int) expl
 				if msg := wx.BookmarksIncreasing(s.bms); msg != "" {
 					x.Failf("%s: %s", who, msg)
 				}
-				// lag rule (kind flavours): never more than `initial capacity` events behind => never errored
-				if s.errored && s.f != wx.ByID {
+				// lag rule: never more than `initial capacity` events behind => never errored.
+				// The lag is measured conservatively (an over-estimate of writePos - reader position):
+				// commits started since the start index minus the log position just past the last event
+				// the consumer had fully received when the commit started.
+				if s.errored {
 					boot := 0
 					if s.f == wx.KindBootstrap || s.f == wx.KindAggregatedBootstrap {
 						boot = len(wx.States(commits)[start]) + 1
 					}
-					maxLag := 0
-					// commit index k (0-based within typ) was started by script step; steps map 1:1 to commits of typ
-					for k := 0; k < len(commits) && k < len(lagAt); k++ {
-						recv := lagAt[k][j] - boot
-						if recv < 0 {
-							recv = 0
+					var idPos []int // ByID: log position just past the j-th matching commit at/after start
+					for k := start; k < len(commits); k++ {
+						if commits[k].ID == "a" {
+							idPos = append(idPos, k+1)
 						}
-						if lag := (k + 1 - start) - recv; lag > maxLag {
+					}
+					maxLag := 0
+					for k := 0; k < len(commits) && k < len(lagAt); k++ {
+						recvPos := start
+						if s.f == wx.ByID {
+							if r := lagAt[k][j]; r >= 2 && r-2 < len(idPos) {
+								recvPos = idPos[r-2]
+							}
+						} else if r := lagAt[k][j] - boot; r > 0 {
+							recvPos = start + r
+						}
+						if lag := (k + 1) - recvPos; lag > maxLag {
 							maxLag = lag
 						}
 					}
